@@ -610,6 +610,16 @@ pub fn info<'a, R: Reader<Offset = usize> + 'a>(
             if let Some(r) = call_q(ctx, "unit.range", || header.range(UnitOffset(o)..UnitOffset(o2))) {
                 ev!(ctx, "range {}..{} len={}", o, o2, r.len());
             }
+            // the two ends in the other order (offsets a caller takes from two attributes)
+            if let Some(r) = call_q(ctx, "unit.range", || header.range(UnitOffset(o2)..UnitOffset(o))) {
+                ev!(ctx, "range {}..{} len={}", o2, o, r.len());
+            }
+            // EntriesRaw::new: "`offset` may be any value"
+            if let Ok(input) = header.range_from(UnitOffset(header.header_size())..) {
+                ctx.enter("raw.new");
+                let raw = gimli::EntriesRaw::new(input, header.encoding(), &abbrevs, UnitOffset(o));
+                ev!(ctx, "raw.new next_offset={} empty={}", raw.next_offset().0, raw.is_empty());
+            }
         }
         // 6. Unit construction + Dwarf-level resolution
         let unit = match call_q(ctx, "dwarf.unit", || dwarf.unit(header.clone())) {
